@@ -69,6 +69,8 @@ func cliRun(c cliCase) map[string]interface{} {
 		if c.outflag != "" && r.Exit == 0 && r.Stdout == c.inproc {
 			// the same run writing to a file: the file must hold what standard output held
 			of := filepath.Join(dir, "cliw-out.txt")
+			// the file exists already and is longer than what is going to be written: -o replaces it, nothing of it may remain
+			os.WriteFile(of, []byte(strings.Repeat("stale,row,of,an,earlier,run\n", 4+len(c.inproc)/20)), 0644)
 			r2 := runBinary(gofastaBin(), nil, nil, callDeadline, append(append([]string{}, args...), c.outflag, of)...)
 			b, _ := os.ReadFile(of)
 			if r2.Exit != 0 || r2.Timeout || string(b) != c.inproc {
